@@ -72,6 +72,7 @@ def c01(ctx: Ctx) -> None:
     # the unions and differences the algebra takes are exact only if == on terms is: a == that identifies two
     # different terms makes `|` drop one of them (an assumption or a guarantee silently lost)
     RS.rule_eq(ctx)
+    RF.rule_no_global_mutation(ctx)  # no memo / state at module level: each call is judged on its own arguments
     RK.rule_term_kernels(ctx, ["multiply", "add", "remove", "substitute", "isolate"])
     RP.rule_dispatcher(ctx)
     RP.rule_transform(ctx)
@@ -89,6 +90,9 @@ def c02(ctx: Ctx) -> None:
     RP.rule_refine_wrapper(ctx)
     RA.rule_soundness(ctx, RA.POLY, ["quotient"])
     RS.rule_eq(ctx)  # as for C01: `|` and `-` rest on exact term equality
+    # the certificates read each call on its own: a memo at module level (solutions keyed by the printed, rounded text
+    # of a system) makes a later call answer with an earlier call's data
+    RF.rule_no_global_mutation(ctx)
     RK.rule_term_kernels(ctx, ["multiply", "add", "remove", "substitute", "isolate"])
     RP.rule_dispatcher(ctx)
     RP.rule_transform(ctx)
@@ -132,6 +136,8 @@ def c15(ctx: Ctx) -> None:
     RE.rule_call_arity(ctx)
     RA.rule_retention(ctx, RA.POLY)
     RA.rule_exactness(ctx, RA.POLY)
+    # what the cross-simplification removes as redundant comes back only through tactic 1's substitution
+    RK.rule_kaykobad_selection(ctx)
     # "verbatim" rests on the list operators and on exact term equality (a tolerant == makes | and - drop near-equal terms)
     RA.rule_tl_operators(ctx)
     RS.rule_eq(ctx)
